@@ -40,6 +40,11 @@ pub struct SimStream {
     pub fail_at: Option<usize>,
     /// `write` returns Ok(0) at this I/O call index.
     pub zero_at: Option<usize>,
+    /// Exactly one interrupted call, at this I/O call index.
+    pub eintr_at: Option<usize>,
+    /// The write at this I/O call index accepts a single byte.
+    pub one_byte_at: Option<usize>,
+    pub placed_fired: bool,
     pub io_calls: usize,
     pub max_offered: usize,
     pub failed: bool,
@@ -62,6 +67,9 @@ impl SimStream {
             short_writes: false,
             fail_at: None,
             zero_at: None,
+            eintr_at: None,
+            one_byte_at: None,
+            placed_fired: false,
             io_calls: 0,
             max_offered: 0,
             failed: false,
@@ -91,6 +99,11 @@ impl Read for SimStream {
             self.failed = true;
             self.cx.fault("io_error");
             return Err(io::Error::new(io::ErrorKind::Other, "simulated read failure"));
+        }
+        if self.eintr_at == Some(idx) {
+            self.placed_fired = true;
+            self.cx.fault("eintr");
+            return Err(io::Error::new(io::ErrorKind::Interrupted, "simulated EINTR (placed)"));
         }
         if self.maybe_eintr() {
             return Err(io::Error::new(io::ErrorKind::Interrupted, "simulated EINTR"));
@@ -153,13 +166,22 @@ impl Write for SimStream {
             self.zeroed = true;
             return Ok(0);
         }
+        if self.eintr_at == Some(idx) {
+            self.placed_fired = true;
+            self.cx.fault("eintr");
+            return Err(io::Error::new(io::ErrorKind::Interrupted, "simulated EINTR (placed)"));
+        }
         if self.maybe_eintr() {
             return Err(io::Error::new(io::ErrorKind::Interrupted, "simulated EINTR"));
         }
         if buf.is_empty() {
             return Ok(0);
         }
-        let n = if self.short_writes {
+        let n = if self.one_byte_at == Some(idx) {
+            self.placed_fired = true;
+            self.cx.fault("short_write");
+            1
+        } else if self.short_writes {
             let cut = self.cx.draw(buf.len() as u64) as usize; // 0 = everything
             if cut > 0 {
                 self.cx.fault("short_write");
